@@ -28,7 +28,7 @@ func init() {
 	simkit.Register(&simkit.Prop{
 		ID:   "C15",
 		Desc: "NeoVM programs over maps / nested containers give the same success flag, return value, notifications, gas, write set and state root in every execution (repeated pre-execution, repeated block execution, two twin ledgers)",
-		Rule: "a run = two twin solo ledgers with one small storage contract, and 1..5 generated NeoVM programs (hand-assembled; locals in an alt-stack array) in 1..3 blocks: each starts with a map literal of 2..8 entries (keys: small integers, byte strings, booleans whose VM map keys differ, in tape-chosen insertion order; values: primitives, nested arrays / structs / maps up to 6 levels, references to other locals without reference cycles) followed by 2..11 statements from: assignment of a new value, SETITEM / REMOVE on a map, KEYS, VALUES, HASKEY, PICKITEM, Runtime.Serialize, Serialize+Deserialize, Runtime.Notify of a local or of [KEYS, VALUES], ARRAYSIZE with arithmetic, APPEND / REVERSE / REMOVE on arrays and structs, an order-sensitive SHA1 fold over an array, iteration over KEYS with PICKITEM folding serialised key and value, an arithmetic fold ((acc*31+key) mod p) over KEYS, Storage.Put of the serialised value through the deployed contract with read-back; the return value is the serialisation of all locals. Every program is pre-executed R=16 times (64 in a replay) on the same state through LedgerStore.PreExecuteContractWithParam (raw gas), then its block is executed 6 times (32 in a replay) on each of the two ledgers through ExecuteBlock and committed; oracle: identical success flag, return value, notifications and gas over the pre-executions; identical per-transaction state, gas, notifications, write set, change hash and state root over all block executions on both ledgers; identical stores at the end. In one run of four the last program is of the deep class: one map value is nested to about the serialisation depth limit (8..11 arrays, directly or inside a nested map) or is the map itself. Non-trivial = some program that contains a map with >= 2 entries and an order-sensitive consumer of it (KEYS / VALUES / Serialize / Notify / iteration / fold / storage put) executed successfully; distinct = distinct event-trace hash",
+		Rule: "a run = two twin solo ledgers with one small storage contract, and 1..5 generated NeoVM programs (hand-assembled; locals in an alt-stack array) in 1..3 blocks: each starts with a map literal of 2..8 entries (keys: small integers, byte strings, booleans whose VM map keys differ, in tape-chosen insertion order; values: primitives, nested arrays / structs / maps up to 6 levels, references to other locals without reference cycles) followed by 2..11 statements from: assignment of a new value, SETITEM / REMOVE on a map, KEYS, VALUES, HASKEY, PICKITEM, Runtime.Serialize, Serialize+Deserialize, Runtime.Notify of a local or of [KEYS, VALUES], ARRAYSIZE with arithmetic, APPEND / REVERSE / REMOVE on arrays and structs, an order-sensitive SHA1 fold over an array, iteration over KEYS with PICKITEM folding serialised key and value, an arithmetic fold ((acc*31+key) mod p) over KEYS, Storage.Put of the serialised value through the deployed contract with read-back, and (one program in six) a map of 1023..1066 scrambled integer keys built in a loop and serialised directly or inside an array (both sides of MAX_ARRAY_SIZE=1024, which bounds KEYS / VALUES but not Serialize); the return value is the serialisation of all locals. Every program is pre-executed R=16 times (64 in a replay) on the same state through LedgerStore.PreExecuteContractWithParam (raw gas), then its block is executed 6 times (32 in a replay) on each of the two ledgers through ExecuteBlock and committed; oracle: identical success flag, return value, notifications and gas over the pre-executions; identical per-transaction state, gas, notifications, write set, change hash and state root over all block executions on both ledgers; identical stores at the end. In one run of four the last program is of the deep class: one map value is nested to about the serialisation depth limit (8..11 arrays, directly or inside a nested map) or is the map itself. Non-trivial = some program that contains a map with >= 2 entries and an order-sensitive consumer of it (KEYS / VALUES / Serialize / Notify / iteration / fold / storage put) executed successfully; distinct = distinct event-trace hash",
 		Real: []string{"vm/neovm (executor, value stack, types: map/array/struct values, Serialize/Deserialize, cycle and depth detector)", "smartcontract/service/neovm (Invoke loop, APPCALL, Runtime.Serialize/Deserialize/Notify, Storage.Put/Get, gas)", "core/store/ledgerstore (PreExecuteContract, ExecuteBlock, SubmitBlock, state roots) on two ledgers", "smartcontract/storage + overlaydb + goleveldb on SimDisk"},
 		Stub: []string{"solo block producer in the harness (both ledgers execute the same blocks)", "no transaction pool; wasm JIT stub archive"},
 		Assumptions: []string{
@@ -36,7 +36,7 @@ func init() {
 			"a replay re-executes with R=64 (detected through the VERIF_REPLAY environment variable; R is not part of the trace)",
 			"error texts of failing executions are not compared, only the fact of failing",
 		},
-		ExpectedProbes: []string{"c15_op_KEYS", "c15_op_VALUES", "c15_op_Serialize", "c15_op_Deserialize", "c15_op_Notify", "c15_op_fold", "c15_op_iterate", "c15_op_StoragePut", "c15_prog_ok", "c15_prog_fails_always", "c15_deep_program", "c15_deep_diverged", "c15_gas_charged", "c15_three_programs_in_block"},
+		ExpectedProbes: []string{"c15_op_KEYS", "c15_op_VALUES", "c15_op_Serialize", "c15_op_Deserialize", "c15_op_Notify", "c15_op_fold", "c15_op_iterate", "c15_op_StoragePut", "c15_op_wide", "c15_prog_ok", "c15_prog_fails_always", "c15_deep_program", "c15_deep_diverged", "c15_gas_charged", "c15_three_programs_in_block"},
 		Run:            runC15,
 	})
 }
